@@ -214,7 +214,14 @@ impl AUC {
             exists|idx: Seq<usize>| #[trigger] ascending_arrangement(y_pred_prob.vview(), idx)
                 && res == mann_whitney_auc(y_true.vview(), y_pred_prob.vview(), idx), //# auc-is-mann-whitney-with-mid-ranks
 //@enter
-        proof { T::ops_total(); }
+        proof {
+            T::ops_total();
+            // whatever the argsort returns: rearranging scores on which `==` is a partial equivalence keeps it one
+            assert forall|before: Seq<T>, after: Seq<T>, idx: Seq<usize>|
+                eq_per_on(before) && #[trigger] is_argsort_of(before, after, idx) implies eq_per_on(after) by {
+                lemma_per_gather(before, after, idx);
+            }
+        }
 //@loop 1
             invariant
                 T::obeys_eq_spec(), T::obeys_add_assign_spec(),
@@ -226,11 +233,6 @@ impl AUC {
                 count_zero(y_true.vview(), i as int) >= 0,
                 pos == t_count::<T>(count_one(y_true.vview(), i as int)),
                 neg == t_count::<T>(count_zero(y_true.vview(), i as int)),
-//@after let label_idx = y_pred.quick_argsort_mut();
-        proof {
-            lemma_per_gather(y_pred_prob.vview(), y_pred@, label_idx@);
-            assert(y_pred@ =~= gather(y_pred_prob.vview(), label_idx@));
-        }
 //@loop 2
             invariant
                 T::obeys_eq_spec(), T::obeys_div_spec(),
@@ -239,6 +241,7 @@ impl AUC {
                 n == rank@.len(),
                 2 * n <= usize::MAX,
                 eq_per_on(y_pred@),
+                y_pred@ =~= gather(y_pred_prob.vview(), label_idx@),
                 0 <= i <= n,
                 i < n ==> (i == 0 || !y_pred@[i - 1].eq_spec(&y_pred@[i as int])),
                 forall|k: int| 0 <= k < i ==> #[trigger] rank@[k] == mid_rank::<T>(run_start(y_pred@, k), run_end(y_pred@, k)),
@@ -250,20 +253,26 @@ impl AUC {
                         i < j <= n,
                         forall|m: int| i < m < j ==> (#[trigger] y_pred@[m]).eq_spec(&y_pred@[i as int]),
                     decreases n - j
-//@before let r = 
-                proof {
-                    // the block [i, j) is the tie group of each of its positions, and it has at least two entries
-                    assert(y_pred@[i as int].eq_spec(&y_pred@[i + 1]));
-                    assert(y_pred@[i + 1].eq_spec(&y_pred@[i as int]));
-                    assert(j >= i + 2);
-                    assert forall|k: int| i <= k < j implies run_start(y_pred@, k) == i && run_end(y_pred@, k) == j by {
-                        lemma_run_start_in_block(y_pred@, i as int, j as int, k);
-                        lemma_run_end_in_block(y_pred@, i as int, j as int, k);
+//@loopbody 2
+            let ghost i0 = i as int;        // start of the tie group handled by this iteration
+            let ghost rank0 = rank@;
+            broadcast use axiom_iter_mut_window_frame;
+//@loopend 2
+            proof {
+                if !(i0 == n - 1 || !y_pred@[i0].eq_spec(&y_pred@[i0 + 1])) {
+                    // second branch: the scan (loop 3) stopped at j, which is now i. The block [i0, j) is the tie group of each
+                    // of its positions, and it has at least two entries
+                    let j = i as int;
+                    assert(y_pred@[i0].eq_spec(&y_pred@[i0 + 1]));
+                    assert(y_pred@[i0 + 1].eq_spec(&y_pred@[i0]));
+                    assert(j >= i0 + 2);
+                    assert forall|k: int| i0 <= k < j implies run_start(y_pred@, k) == i0 && run_end(y_pred@, k) == j by {
+                        lemma_run_start_in_block(y_pred@, i0, j, k);
+                        lemma_run_end_in_block(y_pred@, i0, j, k);
                     }
-                    if j < n { lemma_block_end(y_pred@, i as int, j as int); }
+                    if j < n { lemma_block_end(y_pred@, i0, j); }
                 }
-                let ghost rank0 = rank@;
-                broadcast use axiom_iter_mut_window_frame;
+            }
 //@loop 4
                     invariant
                         rank@.len() == n, rank0.len() == n, i < j <= n,
@@ -272,11 +281,6 @@ impl AUC {
                         forall|k: int| i <= k < i + VERUS_ghost_iter.index@ ==> #[trigger] rank@[k] == r,
                         forall|k: int| i <= k < j ==> *final(VERUS_ghost_iter.seq()[k - i]) == #[trigger] rank@[k],
                         forall|k: int| 0 <= k < n && !(i <= k < j) ==> #[trigger] rank@[k] == rank0[k],
-//@before let mut auc = T::zero();
-        proof {
-            assert(rank@ =~= mid_ranks(y_pred@));
-            assert(ascending_arrangement(y_pred_prob.vview(), label_idx@));
-        }
 //@loop 5
             invariant
                 T::obeys_eq_spec(), T::obeys_add_assign_spec(),
@@ -286,6 +290,8 @@ impl AUC {
                 n == rank@.len(),
                 n == y_pred_prob.vview().len(),
                 is_argsort_of(y_pred_prob.vview(), y_pred@, label_idx@),
+                rank@ =~= mid_ranks(y_pred@),
+                ascending_arrangement(y_pred_prob.vview(), label_idx@),
                 auc == pos_rank_sum(y_true.vview(), label_idx@, rank@, i as int),
 //@end
 }
